@@ -93,4 +93,36 @@ theorem transmitReport_matches_source (s : St) (w : String) (b : Nat) (rest : Li
     transmitReport s [] acc = Gen.Src.c07ReportTransmitAnswer acc :=
   ⟨rfl, rfl⟩
 
+/-! ### the control structure of `ShouldProcess`, regenerated as a decision tree -/
+
+/-- the upkeep type as the number the source compares with (`types.ConditionTrigger = 0`, `types.LogTrigger = 1`; any
+other value takes neither `case`) -/
+def typeCode : UpkeepType → Nat
+  | .condition => 0
+  | .log => 1
+  | .other => 2
+
+/-- `ShouldProcess` as the source writes it: the exit the regenerated decision tree takes, and the value the source
+returns at that exit (both regenerated on every run: `Gen.Src.c07ShouldProcessTree`, `…TreeVal`) -/
+def shouldProcessSrc (found pending : Bool) (utype ttype cb tb : Nat) : Bool :=
+  Gen.Src.c07ShouldProcessTreeVal found pending utype ttype cb tb
+    (Gen.Src.c07ShouldProcessTree found pending utype ttype cb tb)
+
+/-- **`ShouldProcess` is the source's decision tree**: which `return` is reached under which conditions, in which
+order the conditions are tested (if-nesting, both `switch`es, their `default` arms and the fall-through to the final
+`return true`), and what each `return` returns are read off the source on every run; the model's function equals
+it for every state, unit of work, upkeep type and check block. -/
+theorem shouldProcess_tree_matches_source (utype : String → UpkeepType) (s : St) (w uid : String) (cb : Nat) :
+    shouldProcess utype s w uid cb =
+      match s.cache.get w s.now with
+      | none => shouldProcessSrc false false (typeCode (utype uid)) 0 cb 0
+      | some v => shouldProcessSrc true v.pending (typeCode (utype uid)) v.ttype cb v.tblock := by
+  unfold shouldProcess shouldProcessSrc
+  cases s.cache.get w s.now with
+  | none => simp [Gen.Src.c07ShouldProcessTree, Gen.Src.c07ShouldProcessTreeVal]
+  | some v =>
+    simp only [Gen.Src.c07ShouldProcessTree]
+    cases hp : v.pending <;> cases hu : utype uid <;> by_cases ht : v.ttype = performEvent <;>
+      simp_all [typeCode, performEvent, Gen.Src.c07ShouldProcessTreeVal]
+
 end AutoVerif.C07
